@@ -111,6 +111,7 @@ def exec_case(m, case):
     del fakes.ALL_SOURCES[:]
     del fakes.ALL_FNS[:]
     fakes._LOCKS.clear()
+    fakes.SERIAL[0] = 0
     stats = {}
     log = []
     res = {"prop": m.ID}
